@@ -370,7 +370,7 @@ var vSeqOps = []OperationType{GasOp, FetchOp, LookupOp, ReadOp, WriteOp, WriteOp
 	InvokeOp, ExpungeOp, BlessOp, AssignOp, DesignateOp, CheckpointOp, NewOp, NewOp, UpgradeOp, TransferOp, TransferOp, EjectOp, QueryOp, SolicitOp, SolicitOp,
 	ForgetOp, ForgetOp, YieldOp, ProvideOp, LogOp}
 
-type vMonitors struct{ frame, ledger, footprint, charge, transferBias bool }
+type vMonitors struct{ frame, ledger, footprint, charge, transferBias, alias bool }
 
 func bigU(x types.U64) *big.Int { return vBig().SetUint64(uint64(x)) }
 
@@ -561,6 +561,37 @@ func vRunHostSequence(h *vh.H, stratum string, ci int, r vh.R, mon vMonitors) {
 			}
 			if op == CheckpointOp && kind == "ok" && vProjDiff(o.projX1, o.projY1) != "[]" {
 				viol("frame: checkpoint copy differs from the live context", vProjDiff(o.projX1, o.projY1))
+			}
+		}
+
+		// ---- aliasing probe (C07, C10): what a call keeps must be a copy of guest memory, not a view of it ---------
+		// The guest (or a later host call) is free to overwrite the bytes a call was given: scramble every input range and
+		// the destination range right after the call and require the context and the inner machines to stay as they were.
+		if (mon.frame || mon.alias) && kind != "panic" && kind != "oog" {
+			scrambled := false
+			rgs := append([]vRange(nil), sp.req...)
+			if sp.dst != nil {
+				rgs = append(rgs, *sp.dst)
+			}
+			for _, rg := range rgs {
+				if rg.addr >= 1<<32 {
+					continue
+				}
+				for a := rg.addr; a < rg.addr+min(rg.n, 8192) && a < 1<<32; a++ {
+					if pg, ok := c.mem.Pages[uint32(a/ZP)]; ok {
+						pg.Value[a%ZP] ^= 0xA5
+						scrambled = true
+					}
+				}
+			}
+			if scrambled {
+				h.Inc("alias_probes")
+				px, py, md := vProjectCtx(&c.add.ResultContextX), vProjectCtx(&c.add.ResultContextY), vMachinesDigest(c.add.IntegratedPVMMap)
+				if dx, dy := vProjDiff(o.projX1, px), vProjDiff(o.projY1, py); dx != "[]" || dy != "[]" || md != o.machines1 {
+					viol("aliasing: overwriting the guest bytes a host call was given changed the service state or an inner machine (the call kept a view of guest memory instead of a copy)",
+						dx+dy+" machines:"+o.machines1+"->"+md)
+					return
+				}
 			}
 		}
 
